@@ -114,6 +114,14 @@ func fillRow(pk *packages.Package, rowp *caseRow, body []ast.Stmt) {
 							row.Puts = append(row.Puts, n)
 						}
 					}
+					// a width handed to a helper of the package (readTail(r, 2))
+					if id, ok := x.Fun.(*ast.Ident); ok && id.Obj != nil {
+						for _, a := range x.Args {
+							if k, ok := constOf(pk, a); ok {
+								row.Consts = append(row.Consts, k)
+							}
+						}
+					}
 				}
 				return true
 			})
@@ -1371,6 +1379,30 @@ func C03(c *core.Ctx) {
 			// the only octet left is 0xff
 			if ok && len(rows) == 4 && rows[3].Op == "default" && rows[0].Op == "<=" && rows[0].Thr == 0xfc && rows[1].Op == "==" && rows[1].Thr == 0xfd && rows[2].Op == "==" && rows[2].Thr == 0xfe {
 				rows[3].Op, rows[3].Thr = "==", 0xff
+			}
+		}
+		// a switch over the first octet that names the three markers and leaves the
+		// one-octet form to its default clause is the same table
+		if ok && len(rows) == 4 {
+			var def *caseRow
+			marks := map[uint64]caseRow{}
+			for i := range rows {
+				if rows[i].Op == "default" {
+					def = &rows[i]
+				} else if rows[i].Op == "==" {
+					marks[rows[i].Thr] = rows[i]
+				}
+			}
+			if def != nil && len(marks) == 3 {
+				if _, a := marks[0xfd]; a {
+					if _, b := marks[0xfe]; b {
+						if _, c3 := marks[0xff]; c3 {
+							d := *def
+							d.Op, d.Thr = "<=", 0xfc
+							rows = []caseRow{d, marks[0xfd], marks[0xfe], marks[0xff]}
+						}
+					}
+				}
 			}
 		}
 		if !ok || len(rows) != 4 {
